@@ -99,7 +99,8 @@ def _scale_job(which: str) -> Callable[[], Record]:
 
 
 for _w in ("scale_fwd", "scale_bwd"):
-    register(Job(f"core:{_w}", ["C02", "C01", "C06"], S + _w, {}, _scale_job(_w)))
+    # every scaled op is verified against these two contracts: the properties built on the op jobs depend on them
+    register(Job(f"core:{_w}", ["C02", "C01", "C03", "C04", "C05", "C06"], S + _w, {}, _scale_job(_w), shared=True))
 
 
 # ---------------------------------------------------------------- constraints.py (C05)
